@@ -93,7 +93,7 @@ def gen_tx_case(rng):
     p = {'rx_flowcontrol_timeout': Tms, 'wftmax': wft, 'stmin': 0}
     inst = dict(a, params=p)
     rid, ext, pfx = reach(inst)
-    where = rng.choice(['after_ff', 'after_block', 'after_wait', 'after_standby'] if wft else ['after_ff', 'after_block', 'after_standby'])
+    where = rng.choice(['after_ff', 'after_block', 'after_wait', 'after_max_waits', 'after_standby'] if wft else ['after_ff', 'after_block', 'after_standby'])
     if where == 'after_standby':
         # the rate limiter holds the First Frame back: the deadline runs from its emission, not from its construction
         p.update(rate_limit_enable=True, rate_limit_max_bitrate=64 * 8, rate_limit_window_size=0.125)
@@ -110,8 +110,14 @@ def gen_tx_case(rng):
         ops += [fc(0, 2), [0, 'proc', 1, 1], [0, 'proc', 1, 1]]
     elif where == 'after_wait':
         ops += [[0, 'tick', T // 2], fc(1, 0), [0, 'proc', 1, 1]]
-    ops += gap_ops(rng, gap, rng.randint(0, 3))
+    elif where == 'after_max_waits':
+        # the whole Wait budget is used up in time; what comes after the last deadline is a timeout, whatever arrives then
+        for _ in range(wft):
+            ops += [[0, 'tick', rng.choice([T // 2, T // 3, max(0, T - 1)])], fc(1, 0), [0, 'proc', 1, 1]]
+    ops += gap_ops(rng, gap, 0 if (where == 'after_max_waits' and rng.random() < 0.6) else rng.randint(0, 3))
     late_fc = rng.choice(['cts', 'wait', 'none']) if wft else rng.choice(['cts', 'none'])
+    if where == 'after_max_waits' and rng.random() < 0.6:
+        late_fc = 'wait'
     if late_fc == 'cts':
         ops.append(fc(0, 0))
     elif late_fc == 'wait':
